@@ -19,6 +19,19 @@ import (
 	"verif/harness/lib"
 )
 
+// askAll is lib.Driver.AskAll with a deadline: a Lean driver that stops answering is a failure of
+// the harness machinery (Fatal), not something to wait for until the outer timeout.
+var harnessFlags lib.Flags
+
+func askAll(res *lib.Result, _ lib.Flags, d *lib.Driver, lines []string) (outs []string, err error) {
+	ok := lib.WithDeadline(240*time.Second, func() { outs, err = d.AskAll(lines) })
+	if !ok {
+		res.Fatalf("Lean driver did not answer %d requests within 240 s", len(lines))
+		lib.Finish(harnessFlags, res)
+	}
+	return outs, err
+}
+
 type replayFile struct {
 	Replay json.RawMessage `json:"replay"`
 }
@@ -64,7 +77,7 @@ func compare(res *lib.Result, outs []string, w *World, sc *Scenario, mode string
 // askCompare sends one history to the driver and compares.
 func askCompare(res *lib.Result, drv *lib.Driver, w *World, sc *Scenario, mode string) (map[string]int, bool) {
 	w.Seal()
-	outs, err := drv.AskAll(w.Lines)
+	outs, err := askAll(res, harnessFlags, drv, w.Lines)
 	if err != nil {
 		res.Fatalf("Lean driver failed: %v", err)
 		return map[string]int{}, false
@@ -102,6 +115,7 @@ func report(res *lib.Result, w *World, sc *Scenario, mode string) {
 
 func main() {
 	f := lib.ParseFlags()
+	harnessFlags = f
 	res := lib.NewResult("case = one generated history run on real tendermint state machines and on the Lean model: a network scenario " +
 		"(n validators, Byzantine power <= f, adversarial scheduling of deliveries/timeouts/duplicates/losses/Byzantine messages, 2-3 heights), " +
 		"an undisciplined single-machine fuzz history, or one total voting power whose thresholds are measured; every input of a history is " +
@@ -160,6 +174,17 @@ func main() {
 	nFuzz := f.Scale(10000, 80000)
 	exP, exN := exhaustiveCount()
 	nEx := exP * exN
+	// directed phase-structured adversary (n=4, f=1): the whole choice space in the thorough tier,
+	// a stride through it in the quick tier
+	// (strides coprime to the digit bases 2, 3, 6 visit every digit value of every position evenly;
+	// C12_ADV_FULL=1 runs the whole Byzantine-proposer space as well: ~1.26M histories, ~25 min)
+	phStrideA, phStrideB := f.Scale(211, 5), f.Scale(211, 1)
+	if os.Getenv("C12_ADV_FULL") != "" {
+		phStrideA, phStrideB = 1, 1
+	}
+	phA, phB := phasedSpace(true), phasedSpace(false)
+	nPh := (phA+phStrideA-1)/phStrideA + (phB+phStrideB-1)/phStrideB
+	runNegativeControl(res)
 	workers := max(4, min(14, runtime.NumCPU()-2))
 	var wg sync.WaitGroup
 	var mu sync.Mutex
@@ -178,19 +203,23 @@ func main() {
 			}
 			defer d.Close()
 			type item struct {
-				j     int
-				sc    *Scenario
-				w     *World
-				mode  string
-				label string
+				j       int
+				sc      *Scenario
+				w       *World
+				mode    string
+				label   string
+				compare bool
 			}
 			flush := func(batch []item) {
 				var lines []string
 				for _, it := range batch {
+					if !it.compare {
+						continue
+					}
 					it.w.Seal()
 					lines = append(lines, it.w.Lines...)
 				}
-				outs, err := d.AskAll(lines)
+				outs, err := askAll(res, harnessFlags, d, lines)
 				if err != nil {
 					res.Fatalf("Lean driver failed: %v", err)
 					return
@@ -198,8 +227,11 @@ func main() {
 				off := 0
 				for _, it := range batch {
 					sc, w, mode, j := it.sc, it.w, it.mode, it.j
-					rules, _ := compare(res, outs[off:off+len(w.Lines)], w, sc, mode)
-					off += len(w.Lines)
+					rules := map[string]int{}
+					if it.compare {
+						rules, _ = compare(res, outs[off:off+len(w.Lines)], w, sc, mode)
+						off += len(w.Lines)
+					}
 					report(res, w, sc, mode)
 					if mode == "sim" && !w.Admissible {
 						res.Fatalf("harness bug: generated an inadmissible history (%s)", w.Why)
@@ -220,6 +252,12 @@ func main() {
 					}
 					agg[mode+"/inputs-delivered"] += len(w.Outs)
 					agg[mode+"/inputs-with-actions"] += nontrivial
+					if mode == "adversary" {
+						agg["adversary/"+it.label]++
+						for _, v := range w.views {
+							agg[fmt.Sprintf("adversary/validator-ends-at-height=%d", v.height)]++
+						}
+					}
 					if mode == "sim" {
 						agg["sim/set-"+it.label]++
 						agg[fmt.Sprintf("sim/byzantine=%d", len(sc.Byz))]++
@@ -240,7 +278,7 @@ func main() {
 			}
 			var batch []item
 			for j := range jobs {
-				it := item{j: j, mode: "sim"}
+				it := item{j: j, mode: "sim", compare: true}
 				if j < nSim {
 					s := genScenario(r.Fork(uint64(j)), f.Thorough())
 					s.run()
@@ -248,11 +286,24 @@ func main() {
 				} else if j < nSim+nFuzz {
 					it.mode = "fuzz"
 					it.sc, it.w = genFuzz(r.Fork(uint64(j)), f.Thorough())
-				} else {
+				} else if j < nSim+nFuzz+nEx {
 					it.mode = "exhaustive"
 					e := j - nSim - nFuzz
 					it.sc = exhaustiveScenario(e/exN, e%exN)
 					it.w = Replay(it.sc)
+				} else {
+					// oracle on every point; the Lean model is compared on one point in eight
+					it.mode = "adversary"
+					e := j - nSim - nFuzz - nEx
+					nA := (phA + phStrideA - 1) / phStrideA
+					if e < nA {
+						it.sc, it.w = runPhased(e*phStrideA, true, []int{3})
+						it.label = phasedLabel(true)
+					} else {
+						it.sc, it.w = runPhased((e-nA)*phStrideB, false, []int{3})
+						it.label = phasedLabel(false)
+					}
+					it.compare = e%8 == 0
 				}
 				batch = append(batch, it)
 				if len(batch) >= 64 {
@@ -263,7 +314,7 @@ func main() {
 			flush(batch)
 		}()
 	}
-	for j := 0; j < nSim+nFuzz+nEx; j++ {
+	for j := 0; j < nSim+nFuzz+nEx+nPh; j++ {
 		jobs <- j
 	}
 	close(jobs)
@@ -309,7 +360,7 @@ func runReplay(f lib.Flags, res *lib.Result) {
 			return
 		}
 		runThresholds(f, res, lib.NewRNG(1), drv, []uint64{n})
-	case "sim", "fuzz", "exhaustive":
+	case "sim", "fuzz", "exhaustive", "adversary":
 		if body.Scenario == nil {
 			res.Fatalf("replay: no scenario")
 			return
